@@ -82,6 +82,138 @@ CLAIMED = {
              "not a state machine).",
         technique="TLA+ order laws evaluated by TLC over relations recorded from the implementation; TLC-generated insertion orders replayed on the real index and validated by TLC",
         ref="DESIGN.md §4 C10"),
+    "C15": dict(
+        text="Wal.tla models the WAL directory (segment files named by first sequence; records [len|seq|entry|sum] at field granularity "
+             "with exact byte lengths; BufWriter buffer; open file; counter; sync mode) with one action per mutator (append, flush, "
+             "set_sync_mode, checkpoint), Reopen, and the faults Truncate(b) (crash tearing the newest file at byte b) and Flip (one byte "
+             "of a record XORed). TLC checks strictly increasing sequences and file-layout invariants on the design, finds the legacy "
+             "reopen counterexample as self-test, and emits one script per transition of the abstract state graph (histories of <=5 "
+             "operations x EVERY truncation offset of the newest file x every byte of the last two records x masks {1,128,255}), every "
+             "operation sequence of length <=4 and random walks of depth 12; each is replayed on the real Wal in a temp dir (set_len / "
+             "byte flip on the real files) and TLC validates after every step current_sequence(), the directory (names, sizes) and the "
+             "result of the real replay(from) for from=0..7 (result class, returned last sequence, delivered payload tokens) against "
+             "Wal_Trace.tla.",
+        note="Bounded: <=6 steps (cover) / 12 (walks), payloads of 38-44 bytes, crash = loss of the BufWriter content and tearing of the "
+             "newest file only, one byte flip per history as last step. Replay is judged on the flushed files. The sequence a reopened log "
+             "continues with may be any number >= the highest durable one; error classes are not distinguished. A damaged length prefix "
+             "pointing beyond EOF may end the file silently (indistinguishable from a torn tail). Open finding "
+             "KF_C15_SequenceNotChecksummed (format change, ADR-023). Opening a log that already contains a corrupted record is not modelled.",
+        ref="DESIGN.md §4 C15"),
+    "C17": dict(
+        text="KvTenants.tla models the tenant registry, the stored data per tenant and the ordered byte-string key space of the "
+             "nodes/edges column families with keys built exactly as node_key/edge_key build them; actions create_tenant, put/delete of "
+             "nodes and relationships; read views point lookup, prefix scan, legacy seek-and-run scan and tenant listing over the key "
+             "space. TLC proves on the model that with a registry refusing ids containing ':' every view returns exactly the tenant's own "
+             "items (all triples of 15 candidate ids, <=4 writes), and finds the legacy-scan and separator counterexamples as self-tests. "
+             "One script per transition (all pairs of all names of length <=2 over {a,b,':'} plus 'a:n','a0'; triples of the "
+             "prefix/adjacent/separator names; <=4 interleaved writes) is replayed on the real PersistenceManager (RocksDB in a temp dir, "
+             "TenantManager deciding which ids are accepted) and after every step scan_nodes, scan_edges, recover, get_node/get_edge for "
+             "every registered tenant and list_persisted_tenants are validated by TLC against KvTenants_Trace.tla.",
+        note="Quantifies over ids TenantManager::create_tenant accepts; writes go through PersistenceManager (which refuses unregistered "
+             "ids). Bounded: <=3 tenants, <=4 writes, ids 1..2, names <=3 chars. Scans/lookups are required to be exactly the tenant's own "
+             "items; the listing only to name tenants that have data.",
+        ref="DESIGN.md §4 C17"),
+    "C03": dict(
+        text="QueryCache.tla models query strings as token sequences with separators (Render = exact text, Meaning = token meanings, Key = "
+             "legacy / outside-quotes / raw) and the engine's LRU parse cache with one action per entry point (Open, Exec for execute and "
+             "execute_mut). TLC checks Correct / EntriesSound / Bounded and that the key never identifies strings of different meaning "
+             "over the whole near-duplicate family (keyword case, quote kind, blanks/tab/newline/case inside literals, identifier case, "
+             "back-ticks, blanks, tabs, newlines, CRLF, block and line comments), finds the pinned tree's counterexamples as self-tests, "
+             "and emits every ordered pair (thorough: every triple of the colliding family, capacities 1-3) plus a transition cover and "
+             "seeded 12-step walks; each is replayed on one real QueryEngine per script and TLC validates that the text is the rendering "
+             "of the named variant, that the rows answered through the cache equal the rows of a fresh parse_query + executor run of the "
+             "exact string, and that every cache hit reported by cache_stats is explained by an entry parsed from a string of the same meaning.",
+        note="4 base queries over a fixed 4-node graph; meaning is defined on tokens (keywords case-insensitive, everything else verbatim); "
+             "key function, capacity handling and eviction order are left open; the random walks are seeded in Python from TLC-emitted "
+             "variants (TLC -simulate is too slow on this model).",
+        ref="DESIGN.md §4 C03"),
+    "C24": dict(
+        text="Routing.tla models statements as structures (EXPLAIN/PROFILE, read prefix over MATCH / OPTIONAL MATCH / UNWIND / WITH / CALL / "
+             "RETURN, one of 14 write/DDL clauses, closing RETURN, keyword case, separator) rendered to text, IsWrite by structure, 8 "
+             "response wrappers, and the NLQ pipeline (the pinned tree's line filter + first-keyword test as the self-test mode, "
+             "structural safety as the design). TLC checks NeverHandsBackAWrite over the exhaustive product and emits every response; each "
+             "is answered by a local Ollama-speaking server to the real NLQPipeline::text_to_cypher (a third through POST /api/nlq on the "
+             "real router); every handed-back statement is executed by the engine on a fresh fixed graph and TLC validates that it left "
+             "nodes, relationships, indexes and constraints unchanged, and that the outcome is a statement or a rejection.",
+        note="Prefixes <= 1 (quick) / <= 2 (thorough); mutation is judged on one fixed graph on which every write kind mutates (checked as a "
+             "sanity condition); refusing harmless statements is not judged; no write procedures exist in the engine.",
+        ref="DESIGN.md §4 C23/C24"),
+    "C25": dict(
+        text="Numerals.tla models 28 grammar positions x 27 numerals (exact value as a decimal string, fits-i64 / fits-usize facts) with "
+             "Parse = Ok(exact) only if it fits, else Err, the pinned tree's call sites as the self-test mode, and every single deletion / "
+             "insertion / substitution of one token (22 base queries) or one character (6 base queries). TLC generates all cases; each text "
+             "is parsed by the real parse_query in a worker process under catch_unwind, the AST numbers are logged as decimal strings, and "
+             "TLC validates no panic/abort, and that an accepted query carries exactly the written value in the position's field (and the "
+             "template's other numerals in theirs).",
+        note="An error is always accepted; float underflow is not judged; damaged input is single-edit token-level and byte-level over a "
+             "fixed alphabet, not general fuzzing.",
+        ref="DESIGN.md §4 C25"),
+    "C36": dict(
+        text="Rdf.tla states the round-trip contract over RDF terms abstracted to character classes (plain, quote, backslash, LF, CR, control "
+             "U+0001, astral U+1F600, space, '<', '&') x term kinds (IRI, blank node, simple / language-tagged / xsd:string / xsd:integer / "
+             "custom-datatype literal): the parsed graph must be isomorphic to the original up to a bijection of blank node labels (brute "
+             "force), xsd:string literals are simple literals, and a graph is refused exactly when an IRI contains a class RFC 3987 "
+             "forbids. A reference design of the three formats (Build / Serialize / Parse as token-level transducers) is model-checked "
+             "against the contract over every case, and three Legacy variants (serializer that escapes nothing, reader that merges blank "
+             "labels, reader that drops all-white-space content) must each yield a counterexample. TLC enumerates every case of three "
+             "universes - every literal string of <=2 (thorough 3) classes x literal kinds; every IRI string in each term position; every "
+             "sequence of <=2 distinct statements (shared, distinct and subject+object blank nodes; the empty graph) - x {N-Triples, "
+             "Turtle, RDF/XML}: 4 449 cases quick, 36 693 thorough. Each is built with the public constructors, serialized with "
+             "RdfSerializer::serialize, parsed with RdfParser::parse of the same format, abstracted back to classes and validated by TLC.",
+        note="Per character CLASS, not per code point (one representative per class; a character outside the table maps to 'other'); strings "
+             "<=3 classes, graphs <=2 statements, one language tag pair, three datatypes. Graphs are sets. All three formats are rio_* "
+             "formatters and parsers behind thin wrappers; open finding KF_C36_XmlWhitespaceOnlyLiteralEmptied is a named deviation "
+             "identified by (format, classes sp/lf/cr only, literal position).",
+        technique="TLA+ contract + reference design of the formats model-checked by TLC; TLC-enumerated cases round-tripped through the real serializers/parsers and validated by TLC",
+        ref="DESIGN.md §4 C36"),
+    "C34": dict(
+        text="Solver.tla states the contract of a solver run - Start(bounds) -> Iter(best)* -> Done(result): history never increases (the "
+             "crate minimises), returned variables inside the box, reported best fitness = fitness recomputed by the caller from the "
+             "returned variables and not worse than the last history entry; for multi-objective solvers every front member inside the box "
+             "with objective vector = recomputed and no member dominating another (Deb's constrained dominance) - and of a PAIR of runs "
+             "(rayon pool of 1 thread vs 8 threads, same seed): identical event for event. Every f64 is replaced by its dense rank within "
+             "the pair (order-isomorphic; NaN a token outside every bound). The harness runs all 35 solver variants of the crate on "
+             "generated problems (dimensions 1-6 x 9 box kinds incl. degenerate lo=hi, 5 objectives, optional penalty, population 5-25, "
+             "iterations 0-40, seeds from VERIF_SEED), and TLC validates every run (quick 630 pairs / 15k events, thorough 5 670 pairs / "
+             "205k events) against Solver_Trace.tla; a panic is an outcome no action accepts. MC_Solver.tla is a tiny design model of the "
+             "contract whose Legacy variant (history without elitism) TLC must refute.",
+        note="impl -> spec only: TLC generates nothing for this property (thinnest use of the technique): state counts are those of the tiny "
+             "contract model, coverage is events validated. Iter events are the entries of the returned history. Multi-objective history "
+             "is compared across the pair but not required to be monotone; an empty front is not rejected; front order is part of 'same "
+             "result'. Floating-point behaviour is observed through ranks, not modelled.",
+        technique="TLA+ run contract; traces recorded from every solver validated by TLC against the trace spec (no generation)",
+        ref="DESIGN.md §4 C34"),
+    "C20": dict(
+        text="Resp.tla defines the RESP grammar (Top: frame/need/open), Encode and the connection machine shaped like handle_connection "
+             "(Open, Deliver = one socket read, Decode = one loop iteration, End). TLC checks decoded = sent, one reply per frame, the "
+             "buffer never becoming garbage, and the round-trip / prefix lemmas over every stream of <=2 (thorough <=3) frames of a "
+             "16-frame universe under every split into <=2-4 reads, finds the legacy header-eating decoder's counterexample as a "
+             "self-test, and emits one script per stream and split plus random walks. Each script is replayed on the real decode / "
+             "handle_command / encode loop and through a socket of a live RespServer, and TLC validates every decode outcome, value, "
+             "reply and buffer content against Resp_Trace.tla.",
+        note="Bounded universe (nested arrays, $0, $-1, payload with CRLF, inline commands). Replies are pinned only for PING and ECHO. The "
+             "live runs cannot force the kernel to keep two writes in two reads. Quoted inline commands and non-ASCII simple strings are left open.",
+        ref="DESIGN.md §4 C20"),
+    "C21": dict(
+        text="Top(b) of Resp.tla classifies any buffer. TLC proves the class lemmas (prefix-freedom, prefix-closure of need, garbage stays "
+             "garbage, canonical re-encoding) on all strings of length <=4 over 13 RESP symbols and generates Exhaust, mutant and "
+             "deep-nesting scripts. A forked worker with a counting allocator and 2 MiB stack runs RespValue::decode on every string of "
+             "length <=4 (thorough: <=5, plus length 6 over 9 symbols, about 940k cases) and about 5500 mutants of valid frames (negative, "
+             "huge, malformed lengths, nesting to 600000). Abort and panic are recorded results. TLC re-enumerates the cases and validates "
+             "outcome class, exact value and rest, no panic/abort, and reservation <= 32*n + 1024.",
+        note="For malformed input any of value/need/error is accepted, as the statement only demands an answer. Must-accept limits are 1 MiB "
+             "bulk, 65536 elements, depth 8. Mutants are a fixed TLC-generated set, not random. Heap use is measured by the harness; the "
+             "bound is stated in the spec.",
+        ref="DESIGN.md §4 C21"),
+    "C22": dict(
+        text="StrictOne(bytes) of Resp.tla means exactly one typed well-formed frame. TLC checks it on the design model for every reply "
+             "under every chunking, finds the raw-error-text encoder's counterexample as a self-test, and generates 769 command / query / "
+             "stored-data scripts with CR, LF and CRLF in every syntactic position, plus sweeps over every byte offset. The replies of the "
+             "real handle_command + encode are validated with StrictOne. Protocol-error replies of the read loop are validated in C21's "
+             "Probe events.",
+        note="Strict reading: a lone CR or LF inside a simple string or error is malformed. Reply contents are not predicted except for PING "
+             "and ECHO. GRAPH.* replies depend on this build's Cypher dialect; many templates end in parse errors, which still echo the input.",
+        ref="DESIGN.md §4 C22"),
 }
 
 NOT_YET = "check not built yet in this round (planned in DESIGN.md §4); not claimed until its check is green on the unchanged tree"
